@@ -56,6 +56,9 @@ var catalogue = []struct {
 		{V, ribx.NHEntry(1, "3.3.3.3")}, {V, ribx.NHGEntry(1, 0, m(1, 1))}, {V, ribx.V4Entry("10.0.0.0/8", 1, "", nil)}, {V, ribx.V6Entry("2001:db8::/32", 1, D, nil)}, {V, ribx.MPLSEntry(100, 1, "", nil)}}},
 	{"D-v6+mpls->V-group", []step{{V, ribx.NHEntry(1, "2.2.2.2")}, {V, ribx.NHGEntry(1, 0, m(1, 1))}, {D, ribx.V6Entry("2001:db8::/32", 1, V, nil)}, {D, ribx.MPLSEntry(100, 1, V, nil)}}},
 	{"V-mpls->D-group", []step{{D, ribx.NHEntry(1, "1.1.1.1")}, {D, ribx.NHGEntry(1, 0, m(1, 1))}, {V, ribx.MPLSEntry(100, 1, D, nil)}}},
+	// entries that name their OWN network instance explicitly as the instance of their group (valid, and the same
+	// reference as leaving the field unset)
+	{"explicit-own-instance", []step{{D, ribx.NHEntry(1, "1.1.1.1")}, {D, ribx.NHGEntry(1, 0, m(1, 1))}, {D, ribx.V4Entry("10.0.0.0/8", 1, D, nil)}, {V, ribx.NHEntry(1, "3.3.3.3")}, {V, ribx.NHGEntry(1, 0, m(1, 1))}, {V, ribx.V6Entry("2001:db8::/32", 1, V, nil)}, {V, ribx.MPLSEntry(100, 1, V, nil)}}},
 	{"both-directions", []step{{D, ribx.NHEntry(1, "1.1.1.1")}, {D, ribx.NHGEntry(1, 0, m(1, 1))}, {V, ribx.NHEntry(1, "3.3.3.3")}, {V, ribx.NHGEntry(1, 0, m(1, 1))}, {D, ribx.V4Entry("10.0.0.0/8", 1, V, nil)}, {V, ribx.V4Entry("10.0.0.0/8", 1, D, nil)}}},
 }
 
